@@ -40,6 +40,8 @@ def is_num(v):
 
 
 def sfield(v, name):
+    if not (isinstance(v, tuple) and len(v) > 3 and v[0] == 'struct'):
+        return None
     for k, x in v[3]:
         if k == name:
             return x
@@ -206,6 +208,8 @@ class SymEx:
             v = self.load(st, v)
         if v[0] == 'struct':
             x = sfield(v, n)
+            if x is None and n == 'coords' and v[1] == 'Point':
+                return STRUCT('Vector', None, [('x', sfield(v, 'x')), ('y', sfield(v, 'y'))])      # Point2 { coords: Vector2 }
             if x is None and idx is not None:
                 x = sfield(v, str(idx))
             if x is None and v[1].startswith('?sym:'):
@@ -392,6 +396,10 @@ class SymEx:
             op = rv['op']
             if op in ('Div', 'Rem') and _is_int_ty(rv['a'].get('ty', '')):
                 op = 'I' + op        # integer (floor) division is not rational division
+            if op in ('Eq', 'Ne', 'Le', 'Ge', 'Lt', 'Gt') and (_is_int_ty(rv['a'].get('ty', '')) or rv['a'].get('ty') in ('bool', 'char')) \
+                    and not is_num(a) and a == b and a[0] in ('sym', 'app', 'bin', 'un'):
+                # an integer compared with (syntactically) itself; not for floats, where x == x fails for NaN
+                return ('bool', op in ('Eq', 'Le', 'Ge'))
             return self.binop(op, a, b)
         if r == 'unop':
             a = self.operand(st, fid, rv['a'])
@@ -1274,7 +1282,7 @@ class SymEx:
     def mat_elem(self, st, m, r, c):
         if m[0] == 'ref':
             m = self.load(st, m)
-        if m[0] == 'struct' and m[1] == 'M3':
+        if m[0] == 'struct' and m[1] in ('M3', 'M2'):
             return sfield(m, '%d%d' % (r, c))
         if m[0] == 'struct' and sfield(m, '0') is not None and len(m[3]) == 1:
             return self.mat_elem(st, sfield(m, '0'), r, c)      # newtype wrapper
@@ -1305,6 +1313,42 @@ class SymEx:
             return args[0]                      # .x / .y of a Vector2
         if 'point_construction' in name and last == 'origin':
             return P(NUM(0), NUM(0))
+        if 'Point<N, D>' in name and last == 'from' and len(args) == 1 and isinstance(val(0), tuple) and val(0)[0] == 'struct' \
+                and val(0)[1] == 'Vector':
+            return P(sfield(val(0), 'x'), sfield(val(0), 'y'))          # Point2::from(Vector2)
+        # 2x2 matrices (Matrix2::new is row-major), by value
+        M2 = lambda a, b, c, d: STRUCT('M2', None, [('00', a), ('01', b), ('10', c), ('11', d)])
+        is_m2 = lambda v: isinstance(v, tuple) and v[0] == 'struct' and v[1] == 'M2'
+        is_v = lambda v: isinstance(v, tuple) and v[0] == 'struct' and v[1] in ('Vector', 'Point')
+        if 'base::construction' in name and 'Matrix<N, nalgebra::U2, nalgebra::U2' in name and last == 'new' and len(args) == 4:
+            return M2(val(0), val(1), val(2), val(3))
+        if 'base::construction' in name and last == 'from_diagonal' and len(args) == 1 and is_v(val(0)):
+            d = val(0)
+            return M2(sfield(d, 'x'), NUM(0), NUM(0), sfield(d, 'y'))
+        if 'base::construction' in name and last == 'identity' and 'nalgebra::U2, nalgebra::U2' in name:
+            return M2(NUM(1), NUM(0), NUM(0), NUM(1))
+        if last == 'mul' and len(args) == 2 and is_m2(val(0)) and ('base::ops' in name or 'point_ops' in name):
+            a, b = val(0), val(1)
+            e = lambda r, c: sfield(a, '%d%d' % (r, c))
+            if is_m2(b):
+                f = lambda r, c: sfield(b, '%d%d' % (r, c))
+                return M2(*[add(mul(e(r, 0), f(0, c)), mul(e(r, 1), f(1, c))) for r in range(2) for c in range(2)])
+            if b[0] == 'sym' and b[1].endswith('.coords'):
+                # the coordinate vector of a symbolic point p: (p.x, p.y)
+                b = STRUCT('Vector', None, [('x', SYM(b[1][:-7] + '.x')), ('y', SYM(b[1][:-7] + '.y'))])
+            if is_v(b):
+                x, y = sfield(b, 'x'), sfield(b, 'y')
+                return STRUCT(b[1], None, [('x', add(mul(e(0, 0), x), mul(e(0, 1), y))), ('y', add(mul(e(1, 0), x), mul(e(1, 1), y)))])
+        if last == 'mul' and len(args) == 2 and is_m2(val(0)) and 'base::ops' in name and val(1)[0] in ('num', 'sym', 'bin', 'app', 'un') \
+                and 'Mul<N>' in name:
+            a = val(0)
+            return M2(*[mul(sfield(a, k), val(1)) for k in ('00', '01', '10', '11')])
+        if last == 'transpose' and len(args) == 1 and is_m2(val(0)):
+            a = val(0)
+            return M2(sfield(a, '00'), sfield(a, '10'), sfield(a, '01'), sfield(a, '11'))
+        if last == 'determinant' and len(args) == 1 and is_m2(val(0)):
+            a = val(0)
+            return sub(mul(sfield(a, '00'), sfield(a, '11')), mul(sfield(a, '01'), sfield(a, '10')))
         if 'point_coordinates' in name and last in ('deref', 'deref_mut'):
             return args[0]
         if 'point_ops' in name and 'Sub' in name and last == 'sub':
